@@ -600,11 +600,11 @@ int _vnadata_load_npd(vnadata_internal_t *vdip, FILE *fp, const char *filename)
 		}
 		continue;
 	    }
-	    if (nss.nss_field_count != 1 + 2 * ports) {
+	    if ((long long)nss.nss_field_count != 1LL + 2LL * ports) {
 		_vnadata_error(vdip, VNAERR_SYNTAX, "%s (line %d) error: "
-			"expected %d fields after z0",
+			"expected %lld fields after z0",
 			nss.nss_filename, nss.nss_line,
-			2 * ports);
+			2LL * ports);
 		goto out;
 	    }
 	    if (z0_vector == NULL) {
